@@ -22,6 +22,26 @@ CHECKS = {
   text="Static half of C10, proved in Coq for all programs: if the resolved program is lexically scoped (rs_resolved, an executable check) then the IR produced by the lowering model introduces every variable -- user variable or compiler temporary -- as a Lua local, parameter or top-level external in an enclosing block before any read or assignment, assignment targets are real locals (never inlinable temporaries) and blocks are balanced (theorem C10_lower_scoped, by induction on the lowering). The model of intermediate.rs + lua.rs is fed the real resolver's output and must reproduce the real compiler's Lua text byte for byte on every run; the theorem's hypothesis is evaluated on every real resolver output of the tie; an independent scan of the real Lua text looks for V-names outside any binding.",
   note="Trusted: Coq kernel; Back/IR.v + Back/Emit.v as the model of intermediate.rs/lua.rs (byte-exact tie on all accepted repo tests + generated programs each run); the hook dump conversion; that a Lua `local` is a fresh variable per execution and closures capture by reference (Lua semantics: the dynamic half of C10, observed through the Lua interpreter model in the C01 oracle, not proved). No axioms.",
   technique="Coq theorem (induction over the lowering) on a backend model tied byte-exactly to the real output + independent text scan", design="DESIGN.md §4 C10"),
+ "C06": dict(
+  text="The real emitted text of every accepted program of the run (lexical corner cases: Lua-keyword field names, strings with every byte but the double quote, extreme numbers, every expression form unused, code after ret/break/continue, long bodies; generated typed programs; all repo tests) must pass lua_wf, the Coq model of 'Lua 5.3 loads this chunk', and the backend model must reproduce that text byte for byte. Coq theorems cover for all programs the source-dependent reasons a chunk could fail to load: blocks are balanced and assignment targets are real locals (from C10_lower_scoped), escaped string literals lex back to the original bytes, reserved words are never written as field names.",
+  note="lua_wf (coq/Lua/LuaWf.v) is the definition of loadability: trusted, it cannot be compared with a real interpreter here. No theorem yet connects the emitter's text to the Lua grammar as a whole (no parse(render) theorem): that part rests on lua_wf of the real text (translation-validation strength). Open known finding: more than 200 locals in one function. No axioms.",
+  technique="Coq lemmas on the emitter model + byte-exact tie + lua_wf (Coq Lua 5.3 loader model) on the real emitted text", design="DESIGN.md §4 C06"),
+ "C13": dict(
+  text="For every operator table accepted by prec_table_ok -- the table regenerated from expression.rs and parser.rs is, by vm_compute -- the parser model maps the minimally and the fully parenthesised token strings of every operator tree (13 binary operators, 2 unary operators, parentheses, ints, identifier chains with calls, indexes and fields) to that tree modulo Parenthesis nodes, consuming exactly the printed tokens (C13_roundtrip, all depths). A unary operator next to * / is always parenthesised by the minimal printer. The extracted model of the whole parser is run against the real parser; an independent oracle compares the real parser on minimal vs full parenthesisation.",
+  note="Trusted: Coq kernel and vm_compute; gen_prec.py and gen_tokens; Parse/Parser.v and Lex/Logos.v as hand-written models validated differentially; extraction (ExtrOcamlBasic/ExtrOcamlString) and parse_driver.ml; harness sexp printer. Theorems speak about token lists. No axioms.",
+  technique="Coq round-trip proof over a fuelled parser model generic in the regenerated precedence table + differential tie", design="DESIGN.md §4 C13"),
+ "C14": dict(
+  text="Parser-level theorems on the parser model: prime call equals paren call; arrow call parses to ArrowCall; parentheses only add Parenthesis nodes; loop-do conditional form; the Context primitives are blind to comments and to newlines inside brackets; a lexer white-space lemma. Three statements are left as visible Props (not assumed). The whole-program claim (byte-identical Lua for all surface variants: prime/paren/arrow calls, trailing expression vs ret, loop do, redundant parentheses, comments, blank lines, indentation, tabs, CRLF, line breaks inside brackets) is decided by an oracle on the real compiler over generated programs and all repo tests.",
+  note="Partial: the Lua-equality part of the property is oracle-only (no end-to-end theorem through resolver and backend). Trusted: Coq kernel, the parser and lexer models (validated differentially), extraction, harness. No axioms.",
+  technique="Coq theorems on the parser model + differential tie + byte-level variant oracle on the real compiler", design="DESIGN.md §4 C14"),
+ "C15": dict(
+  text="Theorems: a token's line = 1 + newlines before it (from the lexer model, all inputs); find_conflict_markers reports exactly the lines starting with <<<<<<<; file ids assigned by tree() are inverted by namespace_id_to_file for every import graph (cycles, diamonds, unreadable files, std); syntax errors raised through syntax_error!/expect! carry the current token's span, at the end of input the last token's; `Not a valid outer statement` is reported at the statement. The code items are re-read on every run and proved equal to a reviewed text. 'First error at the planted construct' for resolver/type-checker kinds is stated and decided by a planting oracle (16 kinds x every position x 9 text shapes, multi-file, with and without std) on the real compiler.",
+  note="Partial: per-kind location theorems for resolver/type-checker errors are oracle-only. Trusted: Coq kernel; C17's lexer model and tie; Diag/*.v models (Rust lines() semantics, tree work-list) validated by the tie; gen_diag.py and the DocDiag.v review; the planters' tolerances (either definition for duplicates, any later line for an unclosed bracket). No axioms.",
+  technique="Coq theorems on lexer/conflict-marker/file-id/syntax-error models + regenerated code table + planting oracle on the real compiler", design="DESIGN.md §4 C15"),
+ "C20": dict(
+  text="Coq theorems over an executable model of main/run_file_with_reader for all flags and all worlds (compile outcome, create/write results, lua child behaviour): exit status 0 iff compilation (and execution) succeeded, all errors printed in order plus the summary, -o FILE untouched on a compile error and complete whenever status is 0, -o - same bytes, exactly one require line after the preamble (over Back/Emit.v). The driver source is re-read into a table on every run and proved (vm_compute) equal to a reviewed one; the extracted model is run against the built sylt binary on the flag x program x path x child matrix (stub lua) and the property is evaluated directly on the observations.",
+  note="Open known finding: FILE is truncated when the write itself fails. Trusted: Coq kernel; gen_driver.py and the DocDriver.v review; gumdrop parsing, Rust Termination/panic exit statuses, RLIMIT_FSIZE behaviour (modelled, validated by the tie); the stub lua; the Lua interpreter model for the --no-std trace comparison. Signals and --dump-tree are not modelled. No axioms.",
+  technique="Coq theorems on a driver model + regenerated driver table + matrix run of the real binary with a stub lua", design="DESIGN.md §4 C20"),
 }
 
 NOT_YET = "not yet claimed in this revision (machinery under construction; see DESIGN.md §4 for the plan)"
